@@ -61,10 +61,15 @@ Abs(n) == IF n < 0 THEN -n ELSE n
 (*   | p8 * W * S - sum_i w_i Dens(d, k_i) |  <=  W * S  +  W                           *)
 (* 0.5 (rounding of the log) * W * S  +  0.5 (rounding of each table entry) * W, doubled *)
 (* to absorb the float error of the code (relative 10^-15).                             *)
+(* No density on the lattice exceeds Dens(d, 0) / S; a logged value beyond that (plus   *)
+(* the rounding slack) disagrees outright, which also keeps p8 * W * S below 2^31 for   *)
+(* W <= 50.                                                                             *)
 GmPdfAgrees(means, wts, sds, x, p8) ==
   LET W == WSum(wts)
       S == SdProd(sds)
-  IN Abs(p8 * W * S - GmWeightedDens(means, wts, sds, x)) <= W * S + W
+  IN /\ p8 >= 0
+     /\ p8 <= (Dens(Len(sds), 0) \div S) + 2
+     /\ Abs(p8 * W * S - GmWeightedDens(means, wts, sds, x)) <= W * S + W
 
 \* all components with positive weight are at the same Mahalanobis distance from x: the
 \* mixture density is that of one normal and its logarithm is a closed form
